@@ -391,11 +391,13 @@ theorem auth_depends_on_get_rawId (env : Prog.Env) (rp : RP) (o : RequestOptions
 def exEnv : Prog.Env :=
   ⟨fun q => match q with
     | .sha256 _ => .bytes (List.replicate 32 7)
-    | .clientData _ => .clientData ⟨Spec.str "webauthn.get", B64.encode [], Spec.str "o"⟩
-    | .urlHost _ => .bytes (Spec.str "h")
+    | .clientData _ => .clientData ⟨Spec.str "webauthn.get", B64.encode [], Spec.str "https://h"⟩
     | .sigVerify .. => .bool true
     | _ => .none⟩
-def exRP : RP := ⟨Spec.str "o", Spec.str "h"⟩
+def exRP : RP := ⟨Spec.str "https://h", Spec.str "h"⟩
+
+/-- the example's origin really parses to the host the example intends -/
+theorem ex_host : Url.hostOf (Spec.str "https://h") = some (Spec.str "h") := by decide +kernel
 def exOpts : RequestOptions := ⟨[], [], []⟩
 def exCred : Credential := ⟨[1], [], Cose.marshal (.okp (List.replicate 32 1))⟩
 def exAssertion : Assertion := ⟨[1], [], List.replicate 32 7 ++ [0x01, 0, 0, 0, 0], [], []⟩
@@ -405,7 +407,7 @@ theorem ex_authOK : Spec.AuthOK exEnv exRP exOpts exAssertion exGet exCred where
   allowed := Or.inl rfl
   stored := rfl
   owner := rfl
-  clientData := ⟨_, rfl, rfl, rfl, Spec.str "h", Spec.str "h", rfl, rfl, by decide +kernel, Or.inl rfl⟩
+  clientData := ⟨_, rfl, rfl, rfl, Spec.str "h", Spec.str "h", ex_host, ex_host, by decide +kernel, Or.inl rfl⟩
   authData := ⟨⟨List.replicate 32 7, 1, 0, none, []⟩, [], by decide, rfl, by decide,
     fun h => absurd h (by decide +kernel)⟩
   signature := ⟨.okp (List.replicate 32 1), [], C11.marshal_parse_roundtrip_okp _ List.length_replicate, .eddsa, 0, rfl, rfl⟩
